@@ -37,6 +37,7 @@ func vh_C17_multiScalarmultVartimeFinal() {
 	shift := vFinalShifts[vCase(0, len(vFinalShifts)-1)]
 	vNote("final double-and-add: scalar = v * 2^shift, v symbolic of 6 (quick) / 10 (thorough) bits, shift in {0, 1, B-3, B, 2B-5, 120}")
 	v := uint64(vU32("v")) & (1<<uint(bits) - 1)
+	vAssume(v >= 1)
 	var s modm.Bignum256
 	// place v * 2^shift into the limbs
 	limb, off := shift/modm.BitsPerLimb, uint(shift%modm.BitsPerLimb)
@@ -50,9 +51,18 @@ func vh_C17_multiScalarmultVartimeFinal() {
 	// the identity result of the zero case is written as concrete coordinates (0 : 1 : 1 : 0)
 	multiScalarmultVartimeFinal(&r, &p, &s)
 	vReach("multiScalarmultVartimeFinal returned")
-	if v == 0 {
-		vAssert(!vIsAbstractZ(r.X()) && r.X()[0] == 0 && r.Y()[0] == 1 && r.Z()[0] == 1, "s = 0: the neutral element")
-	} else {
-		vAssert(vgId(&r).Eq(g.Mul(vScalarVal(&s))), "multiScalarmultVartimeFinal(P, s) = [s]P")
+	vAssert(vgId(&r).Eq(g.Mul(vScalarVal(&s))), "multiScalarmultVartimeFinal(P, s) = [s]P")
+}
+
+// the zero scalar yields the neutral element (0 : 1 : 1 : 0) written limb by limb
+func vh_C17_multiScalarmultVartimeFinal_zero() {
+	var s modm.Bignum256
+	var p, r ge25519.Ge25519
+	p.X()[0], p.Y()[0], p.Z()[0] = 5, 7, 9
+	multiScalarmultVartimeFinal(&r, &p, &s)
+	ok := r.X()[0] == 0 && r.Y()[0] == 1 && r.Z()[0] == 1
+	for i := 1; i < len(r.X()); i++ {
+		ok = ok && r.X()[i] == 0 && r.Y()[i] == 0 && r.Z()[i] == 0
 	}
+	vAssert(ok, "s = 0: the neutral element (0 : 1 : 1)")
 }
